@@ -13,7 +13,10 @@ func TestMain(m *testing.M) {
 		"Server side: per case 2-3 (TestServerInstances: 2-4) real ServerPeerIDAuth instances (private keys of any of the four key types, 1/5 of the "+
 			"further instances with the SAME private key as instance 0; per instance the secret is an application-provided HmacKey of its own, an "+
 			"HmacKey the application gave to several instances alike (replicas: one secret), or HmacKey left UNSET so that the instance has to draw "+
-			"its own secret - the default configuration; "+
+			"its own secret - the default configuration; the provided keys of a case form one key FAMILY: a base key of 1, 16, 31, 32, 33, 40, 48, 63, 64, 65, 80, 128 "+
+			"or 200 non-zero bytes (below, at and above the digest and block size of HMAC-SHA256), given unchanged to the replicas; every instance with a key of its own gets a "+
+			"variant - ONE byte changed (first, middle, last but one, last, offset 31 / 32 / 63 / 64), the base key extended by 1 / 4 / 32 bytes, cut by 1 / 4 / half of its bytes "+
+			"(one key a proper prefix of the other) - or unrelated material of another length; "+
 			"TokenTTL below / above the challenge lifetime, NoTLS or TLS mode) are driven through ServeHTTP inside a virtual-time bubble. An honest "+
 			"client written from the spec runs 1-3 complete handshakes (client- and server-initiated, all four client key types, two hostnames); "+
 			"every request and response is captured. Then 1-5 attack requests are built from a captured step (or from any challenge seen so far, "+
@@ -24,17 +27,30 @@ func TestMain(m *testing.M) {
 			"client-initiated shape, properly signed for the target) made offline under a secret anybody can try: no key, 32 / 64 zero bytes, the "+
 			"hostname, the target's public key, its peer ID, the secret of an unrelated deployment, the provided secret of another instance outside "+
 			"the target's secret domain - naming a client of the case, a peer no server has ever seen, or the server itself; zero MAC, spliced MAC, rewritten "+
-			"peer ID; header formatting noise; any other instance as target, other / invalid / re-cased Host, SNI mismatch; virtual sleeps to just before, at and "+
+			"peer ID; or under a secret CLOSE to the target's provided one - its first 32 / 64 bytes, all but its last byte, one byte changed, one byte appended; "+
+			"header formatting noise; the SYNTAX around one value (applied last, to the final parameter list): bytes glued to the closing quote (k=\"v\"J), a quote "+
+			"plus bytes inserted before it (k=\"v\"J\"; J = base64 text, padding, another genuine value, the same value, other bytes), missing closing / opening quote, "+
+			"doubled quotes on either or both sides, a quote inside the value, bytes before the opening quote, single quotes, no quotes, blanks around '=' or inside the "+
+			"quotes, trailing tab, backslash before the closing quote; any other instance as target, other / invalid / re-cased Host, SNI mismatch; virtual sleeps to just before, at and "+
 			"just after the challenge and token lifetimes. TestServerInstances walks the instance dimension directly: 1-2 honest sessions, then 2-6 "+
 			"presentations of a token as issued / the challenge answered by its owner with a fresh signature for the TARGET's key and Host / the "+
 			"original answer verbatim / a forged token / a forged challenge, to the minting instance (control, must be accepted while fresh), a replica or "+
-			"a foreign instance, under the hostname it was minted for or the other one. "+
+			"a foreign instance, under the hostname it was minted for or the other one; 1/5 of the further instances are ROTATED: instance 0 after a restart with the next "+
+			"generation of its secret (same private key and configuration, HmacKey differing in its last byte only; unset again if instance 0 has none). "+
+			"TestServerKeyShapes enumerates the key-shape dimension completely: every base length x every variant (152 key pairs; unrelated deployments on even, rotation of one "+
+			"server on odd cases), tokens / freshly answered challenges / replayed answers of each instance shown to the other, tokens forged under every secret close to the "+
+			"target's shown to the target. TestServerQuoting enumerates the syntax dimension completely: every parameter of a valid challenge answer (both flows, all client key "+
+			"types) and of a valid token request x 17 ways of writing it x glued bytes (768 requests, each next to its accepted unaltered control). "+
 			"ORACLE (provenance, applied to every request that reaches Next, honest ones included): "+
 			"some value of the header decodes to exactly a token this server issued to the reported peer and not older than TokenTTL, or to "+
 			"exactly a challenge opaque this server minted not more than 5 min ago together with a signature that verifies under the reported "+
 			"peer's key over (that challenge, this instance's public key, the request's Host); 'this server' = the instance itself or an instance "+
 			"the application gave the very same HmacKey; state of any other instance (in particular of another instance with an unset HmacKey) and "+
-			"state no instance minted justify nothing. Client side: the real ClientPeerIDAuth talks to a "+
+			"state no instance minted justify nothing. A value counts only if the request CARRIES it in a parameter whose quoting is intact: a token (delimited by blank, tab, comma; "+
+			"also tried with separators between a pair of quotes belonging to the value, RFC 7235) that holds no double quote, or exactly two, the second one being its last byte; "+
+			"an accepted request that contains any other token must be justified by its intact parameters alone, and then the reported peer's public key must be among them "+
+			"unless the challenge was minted in answer to a client-initiated request (the server knows the key from its own state). Secrets are the same only if the provided "+
+			"bytes are identical. Client side: the real ClientPeerIDAuth talks to a "+
 			"harness server (RoundTripper) that answers each request honestly or with a generated deviation (wrong signer, wrong / stale / foreign "+
 			"challenge, wrong client key, wrong / omitted hostname, mutated or replayed signature, dropped / duplicated / swapped public-key, "+
 			"refused client-initiated flow, rejected token, swapped header names, status codes), over 1-4 calls (sessions of the same client key, two "+
@@ -61,7 +77,7 @@ func TestMain(m *testing.M) {
 			"been handed out by that origin; an origin that signed nothing gets no identity attributed, whatever it answers. "+
 			"NON-TRIVIAL = at least one operator / deviation / cross-target / expiry shift applied (TestServerInstances: at least one presentation to a "+
 			"foreign instance or of forged state; TestClientOrigins: at least one call to an origin while the client holds an unexpired proof / token of a "+
-			"DIFFERENT origin); DISTINCT = distinct (base step, operator+parameter "+
+			"DIFFERENT origin; TestServerKeyShapes / TestServerQuoting: every case, they are enumerations of alterations); DISTINCT = distinct (base step, operator+parameter "+
 			"list, target relation, host class, sleep class) resp. distinct response-plan list resp. distinct (kind, relation, flow, minter secret mode -> "+
 			"target secret mode / guessed secret, host class) list resp. distinct (origin spellings and kinds, per call: origin, sleep class, request flow, outcome, "+
 			"relation to the origins whose token is held).",
@@ -69,6 +85,8 @@ func TestMain(m *testing.M) {
 		"core/crypto Sign/Verify are trusted (property C08); a signature counts as proof when Verify accepts it under the reported peer's key over the exact expected bytes (ECDSA trailing-bytes malleability therefore never raises an alarm)",
 		"not asserted: a token minted under hostname A being refused under hostname B of the same instance; an opaque minted under hostname A being refused under B when the signature covers B; completeness (honest material being accepted) is only a harness precondition",
 		"instances that the application gives the same HmacKey count as one server (one secret): a token or challenge of one is allowed, not required, to be honoured by the other; every instance with an unset HmacKey is a server of its own",
+		"HMAC pads keys shorter than its block with zero bytes, so keys that differ only by trailing zero bytes are ONE secret by the definition of HMAC-SHA256 (named in the property's anchors); generated keys contain no zero byte, which makes 'any differing byte or length' and 'a different secret' the same thing; an empty HmacKey is never generated (an operator error, not a secret)",
+		"syntax: for unquoted values, single quotes, blanks around '=' or inside the quotes, bytes before the opening quote, a trailing tab and a backslash before the closing quote, acceptance and refusal are both allowed (only provenance is judged); bytes after a closing quote within the token, unbalanced, doubled and inner double quotes alter the value (spec grammar key=\"value\": the value is another string, or the token is no parameter), so such a token proves nothing; re-encodings that decode to the same bytes (CR / LF inside base64, alphabet, padding) are not alterations",
 		"a panic of the handler reports no identity and is counted (label server-panic), not judged by this property",
 		"client side, 'the hostname' is the exact Host string of the request: two Host strings that differ only in port, letter case or a trailing dot are two origins, and a proof (or the token obtained with it) for one says nothing about the other; that the client must not send a bearer token to an origin that did not hand it out is asserted as the wire-level form of this (the token stands for the earlier proof); the client-side TokenTTL itself is not asserted",
 	)
